@@ -259,8 +259,71 @@ def garbage_plan(K, ctx, prop):
     }
 
 
+# ------------------------------------------------------------------------------------------------ C06 / C07
+def eqhash_plan(K, ctx, prop):
+    quick = ctx.tier == "quick"
+    reps = 4 if quick else 24
+    cfg = ("SPECIFICATION Spec\n" + consts(DEPTH=2, TIER=f'"{ctx.tier}"', SEEDS=16, SEED=ctx.seed, ORDERED_HASH="FALSE") +
+           "INVARIANT EqIsSemantic\nINVARIANT EqSymmetric\nINVARIANT EqReflexive\nINVARIANT EqualHashEqual\nINVARIANT Emit\nCHECK_DEADLOCK FALSE\n")
+    rnd = random.Random(ctx.seed)
+
+    def extra(cmds, fmt):
+        lines = [x for x in open(cmds, encoding="utf-8").read().split("\n") if x]
+        recs = [json.loads(x) for x in lines]
+        with open(cmds, "w", encoding="utf-8") as g:
+            for c in recs:
+                c["reps"] = reps
+                g.write(json.dumps(c, ensure_ascii=False) + "\n")
+            # triples for transitivity: (variant, variant, variant-or-near-miss) of the same value
+            for _ in range(min(len(recs), 1500 if quick else 20000)):
+                c1, c2 = rnd.choice(recs), rnd.choice(recs)
+                g.write(json.dumps({"op": "eq3", "a": c1["a"], "b": c1["b"], "c": rnd.choice([c1["a"], c2["a"], c2["b"]])}, ensure_ascii=False) + "\n")
+        # two parses of the same string, from the values the round-trip stage of C01 formats
+        for f in K.FORMATS:
+            pass
+
+    def nontrivial(c):
+        return c["op"] != "eqhash" or json.dumps(c["a"], sort_keys=True) != json.dumps(c["b"], sort_keys=True)
+
+    cmds, obs = None, None
+    cmds = os.path.join(ctx.rundir, "eq_ascii.cmds.ndjson")
+    obs = os.path.join(ctx.rundir, "eq_ascii.obs.ndjson")
+    open(cmds, "w").close()
+    K.run_mc(ctx, "MC_C06", cfg, "ascii", "eq_mc", cmds, workers=8)
+    lines = sorted(set(x for x in open(cmds, encoding="utf-8").read().split("\n") if x))
+    open(cmds, "w", encoding="utf-8").write("".join(l + "\n" for l in lines))
+    extra(cmds, "ascii")
+    # parse-twice commands: the texts of C01's universe in all formats, built by the model formatter
+    pt_cfg = ("SPECIFICATION Spec\n" + consts(TIER='"quick"', SEEDS=16, SEED=ctx.seed) + "INVARIANT EmitText\nCHECK_DEADLOCK FALSE\n")
+    for f in K.FORMATS:
+        K.run_mc(ctx, "MC_ParseTwice", pt_cfg, f, f"eq_pt_{f}_mc", cmds, workers=4)
+    K.account(ctx, cmds, nontrivial)
+    K.run_exec(ctx, cmds, obs)
+    K.run_judge(ctx, "J_C06", "ascii", obs, "eq_judge", shards=6 if not quick else 3, env_extra={"NV_PROP": prop})
+    # negative control: the pinned tree's order-dependent Hash must violate the invariants in the model
+    neg = ("SPECIFICATION Spec\n" + consts(DEPTH=2, TIER='"quick"', SEEDS=1, SEED=1, ORDERED_HASH="TRUE") +
+           "INVARIANT EqIsSemantic\nINVARIANT EqualHashEqual\nCHECK_DEADLOCK FALSE\n")
+    out, st = K.tlc("MC_C06", neg, ctx.rundir, "eq_negative_control", ctx.env("ascii"), 4, K.JAVA_OPTS_MC, 900)
+    if not any("is violated" in e for e in st["errors"]):
+        raise K.ToolError("negative control failed: the order-dependent Hash does not violate the M4 invariants in the model")
+    ctx.exhaustive = False
+    return {
+        "note": "EqHash.tla (M4): every HashSet instance carries a hidden iteration order; TLC checks for ALL pairs of built terms of depth <= 2 "
+                "over two words (all iteration orders of all set nodes) that the transcribed PartialEq is canonical equality, symmetric, reflexive, "
+                "and that canonically equal terms feed equal hash input; with the pinned tree's order-dependent Hash (negative control) TLC finds "
+                f"the counterexamples. Conformance: recipe pairs from a universe of nested unordered compounds and symmetric statements (4 insertion-"
+                f"order / duplication variants of each value against each other and against near misses), each built {reps} times with fresh random "
+                "states; ==, both directions, derived equality of sentence / Narsese, DefaultHasher and RandomState hashes, HashSet.contains, "
+                "HashMap.get; triples for transitivity; two parses of the same text in all formats.",
+        "rule": "one case = (recipe a, recipe b[, recipe c]) or (text parsed twice); non-trivial = the two recipes are written differently",
+        "assumptions": TRUSTED + ["hash collisions of the 64-bit std hashers are ignored"],
+    }
+
+
 PLANS = {
     "C01": plan_c01,
+    "C06": lambda K, ctx: eqhash_plan(K, ctx, "C06"),
+    "C07": lambda K, ctx: eqhash_plan(K, ctx, "C07"),
     "C04": lambda K, ctx: garbage_plan(K, ctx, "C04"),
     "C05": lambda K, ctx: garbage_plan(K, ctx, "C05"),
     "C12": lambda K, ctx: garbage_plan(K, ctx, "C12"),
@@ -274,7 +337,7 @@ PLANS = {
 
 
 # ------------------------------------------------------------------------------------------------ replay / selftest
-JUDGE_OF = {"C04": "J_Garbage", "C05": "J_Garbage", "C12": "J_Garbage", "C08": "J_C08", "C09": "J_Pipe", "C10": "J_Pipe", "C01": "J_C01", "C17": "J_C17", "C14": "J_C14", "C13": "J_C13"}
+JUDGE_OF = {"C06": "J_C06", "C07": "J_C06", "C04": "J_Garbage", "C05": "J_Garbage", "C12": "J_Garbage", "C08": "J_C08", "C09": "J_Pipe", "C10": "J_Pipe", "C01": "J_C01", "C17": "J_C17", "C14": "J_C14", "C13": "J_C13"}
 
 
 def replay(K, pid, path, seed):
